@@ -163,6 +163,23 @@ def copy_case(initial, ops, source_kind):
     elif source_kind == "query":
         src = QueryParams([(k, str(v)) for k, v in init])
         init = [(k, str(v)) for k, v in init]
+    elif source_kind == "generator":
+        # a one-shot iterable of pairs (the constructor is typed Iterable[Tuple]): consumed exactly once
+        a = MutableMultiMapping(p for p in init)
+        ref_a = Ref(init)
+        v = ["generator source: " + x for x in views_agree(a, ref_a)]
+        for op in ops:
+            if v:
+                break
+            mis = apply(a, ref_a, op)
+            if mis:
+                v.append("generator source: " + mis)
+                break
+            v += ["generator source: " + x for x in views_agree(a, ref_a)]
+        z = MultiMapping(zip([k for k, _ in init], [val for _, val in init]))
+        if z.multi_items() != list(init) or len(z) != len(set(k for k, _ in init)):
+            v.append("zip source: multi_items %r for %r" % (z.multi_items(), list(init)))
+        return v
     else:
         src = list(init)
     a = MutableMultiMapping(src)
@@ -263,7 +280,7 @@ def bounded(tier, seed):
         if v and len(failures) < 10:
             failures.append({"inputs": {"initial": [list(p) for p in init], "ops": [list(o) for o in seq]}, "violated": v[:3]})
     # mappings built from other containers are independent of them
-    for source_kind in ("mutable", "immutable", "query", "list"):
+    for source_kind in ("mutable", "immutable", "query", "list", "generator"):
         for init in [i for i in initials if len(i) in (0, 2, 3)][:: (1 if tier == "thorough" else 3)]:
             for op in ops:
                 for op2 in (None, ("append", "a", 1)):
